@@ -525,9 +525,6 @@ fn expand(seeds: &[Seed], plan: &[Value], thorough: bool) -> Vec<Input> {
                     // pair of fields, in both tiers. Other formats (thorough only): sibling fields = consecutive inventory
                     // entries whose names share the prefix up to the last '.' ("hdr.vertices.count" / ".offset").
                     let all_pairs = s.format == "ptch";
-                    if !all_pairs && !thorough {
-                        continue;
-                    }
                     let prefix = |n: &str| n.rsplit_once('.').map(|x| x.0.to_string()).unwrap_or_default();
                     let usable = |f: &Field| f.role != "tag" && f.role != "term";
                     let mut pairs: Vec<(usize, usize)> = Vec::new();
@@ -540,9 +537,20 @@ fn expand(seeds: &[Seed], plan: &[Value], thorough: bool) -> Vec<Input> {
                             }
                         }
                     } else {
-                        for fi in 0..s.fields.len().saturating_sub(1) {
+                        // `extent` fields (offset / width / height of one rectangle): every pair inside the sibling group, both tiers
+                        for i in 0..s.fields.len() {
+                            for j in 0..s.fields.len() {
+                                let (fa, fb) = (&s.fields[i], &s.fields[j]);
+                                if i != j && fa.role == "extent" && fb.role == "extent" && i.abs_diff(j) < 8 && prefix(&fa.name) == prefix(&fb.name) {
+                                    pairs.push((i, j));
+                                }
+                            }
+                        }
+                        for fi in 0..(if thorough { s.fields.len().saturating_sub(1) } else { 0 }) {
                             let pa = prefix(&s.fields[fi].name);
-                            if usable(&s.fields[fi]) && usable(&s.fields[fi + 1]) && !pa.is_empty() && pa == prefix(&s.fields[fi + 1].name) {
+                            if usable(&s.fields[fi]) && usable(&s.fields[fi + 1]) && !pa.is_empty() && pa == prefix(&s.fields[fi + 1].name)
+                                && !pairs.contains(&(fi, fi + 1))
+                            {
                                 pairs.push((fi, fi + 1));
                             }
                         }
